@@ -30,8 +30,8 @@ Fixpoint sd_set (s : seg) (d : tracks_t) (m : tmap) : tmap :=
 Fixpoint sd_del (s : seg) (m : tmap) : tmap :=
   match m with [] => [] | (s', d') :: r => if seqb s s' then r else (s', d') :: sd_del s r end.
 
-(* ---- label-keyed maps: canonical (sorted by name_cmp), order never observed
-        except through sorted(..., key=str) ---- *)
+(* ---- label-keyed Python dicts (_labels, _labelNeedsUpdate): insertion ordered; their order
+        is only ever observed through sorted(..., key=str) ---- *)
 Section NMap.
 Context {V : Type}.
 Fixpoint nm_get (k : name) (m : list (name * V)) : option V :=
@@ -39,9 +39,7 @@ Fixpoint nm_get (k : name) (m : list (name * V)) : option V :=
 Fixpoint nm_set (k : name) (v : V) (m : list (name * V)) : list (name * V) :=
   match m with
   | [] => [(k, v)]
-  | (k', v') :: r => if name_eqb k k' then (k', v) :: r
-                     else if name_ltb k k' then (k, v) :: (k', v') :: r
-                     else (k', v') :: nm_set k v r
+  | (k', v') :: r => if name_eqb k k' then (k', v) :: r else (k', v') :: nm_set k v r
   end.
 Fixpoint nm_del (k : name) (m : list (name * V)) : list (name * V) :=
   match m with [] => [] | (k', v') :: r => if name_eqb k k' then r else (k', v') :: nm_del k r end.
@@ -141,9 +139,11 @@ Definition update_labels (a : ann) : ann :=
                end) upd a.
 
 (* labels() *)
+(* sorted(self._labels, key=str); ties between names with the same str() keep dict order *)
+Definition name_leb (x y : name) : bool := negb (name_ltb y x).
 Definition labels (a : ann) : ann * list name :=
   let a' := if existsb (fun kv => snd kv) (a_dirty a) then update_labels a else a in
-  (a', map fst (a_labels a')).
+  (a', sort_stable name_leb (map fst (a_labels a'))).
 
 Definition name_in (n : name) (l : list name) : bool := existsb (name_eqb n) l.
 
